@@ -165,9 +165,20 @@ impl RetryManager {
         let base_delay = self.config.base_delay;
         let max_delay = self.config.max_delay;
 
-        // Exponential backoff: delay = base * (2 ^ (attempt - 1))
-        let exponential_delay = base_delay * (2_u32.pow(attempt.saturating_sub(1)));
-        let capped_delay = exponential_delay.min(max_delay);
+        // Exponential backoff: delay = base * (2 ^ (attempt - 1)), capped. Computed in
+        // saturating u128 nanoseconds: neither the power nor the product can overflow.
+        let factor = 1_u128
+            .checked_shl(attempt.saturating_sub(1))
+            .unwrap_or(u128::MAX);
+        let capped_nanos = base_delay
+            .as_nanos()
+            .saturating_mul(factor)
+            .min(max_delay.as_nanos());
+        // capped_nanos <= max_delay.as_nanos(), so both parts fit
+        let capped_delay = Duration::new(
+            u64::try_from(capped_nanos / 1_000_000_000).unwrap_or(u64::MAX),
+            u32::try_from(capped_nanos % 1_000_000_000).unwrap_or(0),
+        );
 
         // Adjust for network conditions
         let network_multiplier = match network_condition {
@@ -178,8 +189,10 @@ impl RetryManager {
             NetworkCondition::VeryPoor => 2.0,
         };
 
+        // max_delay caps the adjusted delay, too
         let adjusted_delay =
-            Duration::from_millis((capped_delay.as_millis() as f64 * network_multiplier) as u64);
+            Duration::from_millis((capped_delay.as_millis() as f64 * network_multiplier) as u64)
+                .min(max_delay);
 
         // Add jitter if configured
         if self.config.jitter_factor > 0.0 {
